@@ -32,6 +32,9 @@ def gen_scenario(rng: random.Random, focus: str = "any") -> dict:
         sc["swap_env"] = True
     if focus in ("C01", "C04") and rng.random() < 0.15:
         sc["lazy_points"] = [rng.choice(["clock_resume", "clock_pause", "save_begin"])]
+    elif focus in ("C17", "C01") and rng.random() < 0.25:
+        # the thread that answers status requests is slow between its reads (a request preempted half-way)
+        sc["lazy_points"] = ["webapi:read"]
     if focus in ("C04", "any") and rng.random() < 0.2:
         sc["prelaunch"] = True     # start from the final state of a preparatory launch (load path)
     n = rng.randint(1, 6)
